@@ -349,6 +349,7 @@ def _work(item):
             # come from the current structure, not from anything remembered about this object
             F.detour(H)
             F.morph(H)  # ... and then into a different network with the same node and edge counts
+            F.rename(H)  # ... and one node replaced by a node with a new label (same counts, another node set)
             ck2 = check_network(H, wkind)
             F.grow(H)  # ... and then one more edge with a fresh ID
             ck3 = check_network(H, wkind)
@@ -393,6 +394,11 @@ def family(tier):
     for s in base[::9]:
         for _, nm in F.exotic_label_maps(s["nodes"]):
             items.append((F.relabel(s, node_map=nm), "absent"))
+    for w in F.wide():  # more than ten nodes and edges
+        items.append((w, "absent"))
+        w2 = dict(w)
+        w2["eattr"] = {i: {"weight": WEIGHTS["fraction"](i)} for i in range(len(w["edges"]))}
+        items.append((w2, "fraction"))
     items.append((F.with_empty_edge(F.H([[1, 2], [2, 3]])), "absent"))
     items.append((F.H([], nodes=[]), "absent"))
     return items
